@@ -126,7 +126,7 @@ func (s *State) has(tr *Transition) bool {
 // Parse tries to navigate into the FSM according to the provided args
 func (s *State) Parse(args []string) error {
 	pc := matcher.NewParseContext()
-	ok := s.apply(args, pc)
+	ok := s.apply(args, pc, nil)
 	if !ok {
 		return fmt.Errorf("incorrect usage")
 	}
@@ -157,7 +157,23 @@ func fillContainers(containers map[*container.Container][]string) error {
 	return nil
 }
 
-func (s *State) apply(args []string, pc matcher.ParseContext) bool {
+// visit identifies a call to apply that has not consumed any input since an enclosing call
+type visit struct {
+	state         *State
+	rejectOptions bool
+}
+
+func (s *State) apply(args []string, pc matcher.ParseContext, idle []visit) bool {
+	// idle lists the calls entered since input was last consumed. Coming back to one of them
+	// (via matchers that succeed without consuming: env backed options, --) cannot find anything
+	// the first visit does not find, and would recurse forever
+	for _, v := range idle {
+		if v.state == s && v.rejectOptions == pc.RejectOptions {
+			return false
+		}
+	}
+	idle = append(idle, visit{s, pc.RejectOptions})
+
 	if len(args) > 0 {
 		arg := args[0]
 
@@ -187,11 +203,28 @@ func (s *State) apply(args []string, pc matcher.ParseContext) bool {
 	}
 
 	for _, m := range matches {
-		if ok := m.tr.Next.apply(m.rem, m.pc); ok {
+		seen := idle
+		if consumed(args, m.rem) {
+			seen = nil
+		}
+		if ok := m.tr.Next.apply(m.rem, m.pc, seen); ok {
 			pc.Merge(m.pc)
 			return true
 		}
 	}
 
+	return false
+}
+
+// consumed tells whether a matcher took something from the arguments (a whole token or a part of one)
+func consumed(before, after []string) bool {
+	if len(before) != len(after) {
+		return true
+	}
+	for i := range before {
+		if before[i] != after[i] {
+			return true
+		}
+	}
 	return false
 }
